@@ -63,6 +63,14 @@ type fnSpec struct {
 	// StmtVars: variables (re)defined by a Stmt replacement.
 	StmtVars map[string]map[string]ty
 	Skip     []string // statements dropped (resource release, logging)
+	// Alias: printed Go lvalue (a field of the receiver) -> local variable that stands for it;
+	// assignments to it become re-bindings of that variable (reads go through Expr).
+	Alias map[string]string
+	// LoopBody: translate only the body of the innermost `for … range` loop of the function, as a
+	// function of one element and the loop-carried variables; `continue` and falling off the end
+	// of the body both yield Result (the loop structure itself is guarded by a T2 fact).
+	LoopBody bool
+	Result   string
 	Doc      string
 }
 
@@ -401,6 +409,10 @@ func (tr *translator) call(x *ast.CallExpr, en env) lx {
 	case "int", "time.Duration":
 		// time.Duration is an int64; like Go's int it is modelled unbounded (values here stay far below 2^63)
 		return tr.conv(x, tInt, arg(0))
+	case "strings.LastIndexByte", "bytes.LastIndexByte":
+		a := tr.coerce(x, arg(0), tBytes)
+		c := tr.coerce(x, arg(1), tU8)
+		return lx{s: fmt.Sprintf("(Go.lastIndexByte %s %s)", a.s, c.s), t: tInt}
 	case "min":
 		if len(x.Args) == 2 {
 			a, b, t := tr.unify(x, arg(0), arg(1))
@@ -540,6 +552,9 @@ func (tr *translator) block(stmts []ast.Stmt, en env, ind string, rest func(env,
 			if st, ok := lhs.(*ast.StarExpr); ok {
 				lhs = st.X
 			}
+			if a, ok := tr.spec.Alias[tr.str(lhs)]; ok {
+				lhs = &ast.Ident{Name: a, NamePos: lhs.Pos()}
+			}
 			if id, ok := lhs.(*ast.Ident); ok {
 				v := tr.expr(x.Rhs[0], en)
 				en2 := en.clone()
@@ -564,7 +579,11 @@ func (tr *translator) block(stmts []ast.Stmt, en env, ind string, rest func(env,
 			}
 		}
 	case *ast.IncDecStmt:
-		if id, ok := x.X.(*ast.Ident); ok {
+		target := x.X
+		if a, ok := tr.spec.Alias[tr.str(target)]; ok {
+			target = &ast.Ident{Name: a, NamePos: target.Pos()}
+		}
+		if id, ok := target.(*ast.Ident); ok {
 			op := "+"
 			if x.Tok == token.DEC {
 				op = "-"
@@ -587,6 +606,10 @@ func (tr *translator) block(stmts []ast.Stmt, en env, ind string, rest func(env,
 					return fmt.Sprintf("%slet %s := Go.putU16 %s %s %s\n", ind, leanIdent(name), leanIdent(name), off.s, v.s) + next(en, ind)
 				}
 			}
+		}
+	case *ast.BranchStmt:
+		if x.Tok == token.CONTINUE && x.Label == nil && tr.spec.LoopBody {
+			return ind + tr.spec.Result
 		}
 	case *ast.BlockStmt:
 		return tr.block(x.List, en, ind, next)
@@ -821,10 +844,29 @@ func translateFn(repo string, sp *fnSpec) (string, error) {
 	for k, v := range sp.Vars {
 		en[k] = v
 	}
-	body := tr.block(fd.Body.List, en, "  ", func(env, string) string {
+	stmts := fd.Body.List
+	fallOff := func(env, string) string {
 		tr.fail(fd, "function may fall off its end")
 		return "sorryUnsupported"
-	})
+	}
+	if sp.LoopBody {
+		var inner *ast.BlockStmt
+		ast.Inspect(fd.Body, func(n ast.Node) bool {
+			switch r := n.(type) {
+			case *ast.RangeStmt:
+				inner = r.Body // pre-order: the last loop visited on the first nesting path is the innermost
+			case *ast.ForStmt:
+				inner = r.Body
+			}
+			return true
+		})
+		if inner == nil {
+			return "", fmt.Errorf("%s.%s: no loop found", sp.File, sp.Func)
+		}
+		stmts = inner.List
+		fallOff = func(_ env, ind string) string { return ind + sp.Result }
+	}
+	body := tr.block(stmts, en, "  ", fallOff)
 	if len(tr.errs) > 0 {
 		sort.Strings(tr.errs)
 		return "", fmt.Errorf("cannot translate %s.%s:\n  %s", sp.File, sp.Func, strings.Join(tr.errs, "\n  "))
